@@ -1378,8 +1378,11 @@ impl<T: Clone> Matrix<T> {
             "Row to insert must be <= to {}",
             self.rows()
         );
-        for column in 0..self.columns() {
-            self.data.insert(self.get_index(row, column), value.clone());
+        // clone the values for the new row before modifying anything, so that a Clone
+        // implementation which panics leaves this matrix untouched
+        let new_values = vec![value; self.columns()];
+        for (column, value) in new_values.into_iter().enumerate() {
+            self.data.insert(self.get_index(row, column), value);
         }
         self.rows += 1;
     }
@@ -1452,8 +1455,12 @@ impl<T: Clone> Matrix<T> {
             "Column to insert must be <= to {}",
             self.columns()
         );
+        // clone the values for the new column before modifying anything, so that a Clone
+        // implementation which panics leaves this matrix untouched
+        let mut new_values = vec![value; self.rows()];
         for row in (0..self.rows()).rev() {
-            self.data.insert(self.get_index(row, column), value.clone());
+            self.data
+                .insert(self.get_index(row, column), new_values.pop().unwrap());
         }
         self.columns += 1;
     }
